@@ -4,6 +4,7 @@ from unittest.mock import AsyncMock, MagicMock
 
 from asyncfix import FIXMessage, FMsg, FTag
 from asyncfix.connection import AsyncFIXConnection, ConnectionState
+from asyncfix.errors import FIXConnectionError
 from asyncfix.journaler import Journaler
 from asyncfix.protocol import FIXProtocol44, FIXSchema
 from asyncfix.protocol.common import FExecType, FOrdStatus
@@ -185,6 +186,13 @@ class FIXTester:
         """
         if self.schema:
             self.schema.validate(msg)
+
+        if self.conn_accept.connection_state < ConnectionState.NETWORK_CONN_ESTABLISHED:
+            # like send_msg() of a real acceptor whose session is closed
+            raise FIXConnectionError(
+                "Simulated acceptor is disconnected, got state:"
+                f" {repr(self.conn_accept.connection_state)}"
+            )
 
         raw_msg = self.conn_accept._codec.encode(
             msg,
